@@ -280,6 +280,12 @@ Proof.
     + rewrite !lenN_spec, skipn_length, firstn_length. lia.
 Qed.
 
+Lemma skipn_app_l {A} (a b : list A) : skipn (length a) (a ++ b) = b.
+Proof. induction a; simpl; auto. Qed.
+
+Lemma skipn_app_l2 {A} (a b c : list A) : skipn (length a + length b) (a ++ b ++ c) = c.
+Proof. rewrite app_assoc, <- app_length. apply skipn_app_l. Qed.
+
 Section Varint.
   (* [vb] is a well-formed varint (the payload length): it parses to the same value
      whatever follows, and every proper prefix of it is reported as truncated *)
@@ -301,16 +307,11 @@ Section Varint.
               drain r = firstnN ln (skipnN off P).
   Proof.
     intros Hst Hb Hz Hbig. unfold shift_payload_range_stream.
-    rewrite skipn_app, Nat.sub_diag, skipn_all2 by lia. simpl app. rewrite skipn_O.
+    rewrite skipn_app_l.
     destruct (Nat.le_gt_cases (length vb) j) as [Hj|Hj].
     - (* the whole varint is in the head buffer *)
       rewrite firstn_app, (firstn_all2 vb) by lia. rewrite vb_parses.
-      replace (skipn (length head + length vb) (head ++ vb ++ firstn (j - length vb) P))
-        with (firstn (j - length vb) P).
-      2:{ rewrite app_assoc, skipn_app.
-          rewrite (skipn_all2 (head ++ vb)) by (rewrite app_length; lia).
-          rewrite app_length. replace (length head + length vb - (length head + length vb))%nat with 0%nat by lia.
-          reflexivity. }
+      rewrite skipn_app_l2.
       set (q := N.min (N.of_nat (j - length vb)) (lenN P)).
       replace (firstn (j - length vb) P) with (firstnN q P).
       2:{ rewrite firstnN_spec. unfold q. rewrite lenN_spec.
@@ -340,7 +341,7 @@ Section Varint.
         rewrite (firstn_all2 (skipn j vb)) by (rewrite skipn_length; lia).
         rewrite app_assoc, firstn_skipn. f_equal. f_equal. lia. }
       rewrite Ebuf, vb_parses.
-      rewrite skipn_app, skipn_all2, Nat.sub_diag by lia. simpl app. rewrite skipn_O.
+      rewrite skipn_app_l.
       set (q := N.min (N.of_nat (cap - length vb)) (lenN P)).
       replace (firstn (cap - length vb) P) with (firstnN q P).
       2:{ rewrite firstnN_spec. unfold q. rewrite lenN_spec.
